@@ -1309,6 +1309,8 @@ class QuadraticForm(Expression):
         matrix: np.ndarray,
     ) -> None:
         matrix = np.asarray(matrix)
+        if matrix.dtype == np.bool_:
+            matrix = matrix.astype(np.float64)  # Q + Q.T on booleans is a logical OR
         if matrix.ndim != 2:
             raise WrongDimensionalityError(
                 context="quadratic form",
